@@ -33,9 +33,9 @@ Theorem C20_constants_from_source :
   default_channel = gen_default_channel /\
   gen_request_fields = ["app_id"; "channel"; "release_version"; "platform"; "arch"]%string /\
   gen_request_sources =
-    [("app_id", "config.app_id.clone()"); ("channel", "config.channel.clone()");
-     ("release_version", "config.release_version.clone()");
-     ("platform", "current_platform().to_string()"); ("arch", "current_arch().to_string()")]%string /\
+    [("app_id", "config.app_id"); ("channel", "config.channel");
+     ("release_version", "config.release_version");
+     ("platform", "current_platform"); ("arch", "current_arch")]%string /\
   gen_check_url_suffix = "/api/v1/patches/check"%string.
 Proof. repeat split; reflexivity. Qed.
 Print Assumptions C20_constants_from_source.
